@@ -117,8 +117,12 @@ ghash_internal_vaes_avx512:
         CALC_GHASH r12, r13, xmm0, arg1, zmm1, zmm3, zmm4, zmm5, \
                    zmm6, zmm7, zmm8, zmm9, zmm10, zmm11, zmm12, zmm13, \
                    zmm15, zmm16, zmm17, zmm18, zmm19, zmm20, rax, k1
-        ;; **zmm3, zmm4, zmm5 and zmm6 may contain clear text
-        ;; **zmm15, zmm16, zmm19 and zmm9 may contain hash key
+%ifdef SAFE_DATA
+        ;; every clobbered register may hold message blocks, hash keys or
+        ;; GHASH products (message x hash key); only the result in xmm0 is kept
+        clear_zmms_avx512 zmm1, zmm3, zmm4, zmm5, zmm6, zmm7, zmm8, zmm9, zmm10, \
+                          zmm11, zmm12, zmm13, zmm15, zmm16, zmm17, zmm18, zmm19, zmm20
+%endif
         ret
 
 ;;;;;;;;;;;;;;;;;;;;;;;;;;;;;;;;;;;;;;;;;;;;;;;;;;;;;;;;;;;;;;;;;;;;;;;;;;;;;;;;;;;;;;;;;;;;;;;;;;;
